@@ -186,7 +186,8 @@ class C09(Prop):
                         mm = max(1, min(mm, nn))          # precondition of esl_rand64_Deal: 1 <= m <= n
                         ops.append("deal64 m=%d n=%d" % (mm, nn))
                         ops.append("new64 seed=%d" % rng.randrange(1, 1 << 64))   # model does not track deal64's draws
-                    elif r < 0.75: ops.append("dbl64")
+                    elif r < 0.72: ops.append("int64")
+                    elif r < 0.78: ops.append("dbl64")
                     elif r < 0.85: ops.append("dblclosed")
                     elif r < 0.95: ops.append("dblopen")
                     else: ops.append("new64 seed=%d" % s64)
@@ -220,6 +221,9 @@ class C09(Prop):
                 vals = [int(x) for x in l[3:].split(",") if x]
                 if len(vals) != m or any(not (0 <= v < n) for v in vals) or any(a >= b for a, b in zip(vals, vals[1:])):
                     return Failure("monitor", "deal m=%d n=%d returned %r" % (m, n, vals[:20]))
+            elif w[0] == "int64":
+                if not (0 <= int(l.split()[1]) < 2**63):
+                    return Failure("monitor", "esl_rand64_int64 returned %s outside 0..2^63-1" % l.split()[1])
             elif w[0] in ("random", "unipos", "dbl64", "dblclosed", "dblopen"):
                 x = struct.unpack("<d", struct.pack("<Q", int(l.split()[1], 16)))[0]
                 lo_open = w[0] in ("unipos", "dblopen"); hi_closed = w[0] == "dblclosed"
